@@ -213,7 +213,8 @@ Section Codec.
      ================================================================================================ *)
   (* s_max: MaxRequestBodySize (int64); s_algs: CompressionAlgorithms (None = nil slice);
      s_custom: WithDecoder(key, dec) options in order, dec given by identifier (None = a nil func) *)
-  Record scfg := { s_max : Z; s_algs : option (list string); s_custom : list (string * option N) }.
+  Record scfg := { s_max : Z; s_algs : option (list string); s_custom : list (string * option N);
+                   s_mw : nat }.   (* number of configured `middlewares` (ServerConfig.Middlewares) *)
 
   Definition default_max : Z := 20 * 1024 * 1024.
   Definition default_algs : list string := [s_empty; s_gzip; s_zstd; s_zlib; s_snappy; s_deflate; s_lz4].
@@ -300,6 +301,17 @@ Section Codec.
     end.
 
   (* None = nothing reached the server *)
+  (* ToServer wraps the handler in the configured middlewares FIRST (last one innermost) and in the
+     decompressor afterwards: on a request the decompressor runs, then middleware 1 .. k in order, then the
+     handler.  What each of these handlers is given (a middleware that looks at the body is assumed to
+     leave it as it found it), in the order they run; tag 0 = the innermost handler, i = middleware i. *)
+  Definition view := (list string * Z * stream)%type.
+  Definition server_views (sc : scfg) (w : wreq) : list (N * view) :=
+    match server sc w with
+    | Handled ce cl s => map (fun i => (N.of_nat i, (ce, cl, s))) (seq 1 sc.(s_mw)) ++ [(0%N, (ce, cl, s))]
+    | _ => []
+    end.
+
   Definition e2e (cc : ccfg) (sc : scfg) (r : creq) : option sout :=
     match client cc r with CSent w => Some (server sc w) | _ => None end.
 
